@@ -296,9 +296,14 @@ func (a *Admissible) addSeq(w *Workload, t, i int, o Outcome, how string) {
 	if al.Class != "ok" {
 		if o.Class != "ok" {
 			if o.Class == "error" && al.Class == "error" && a.textStable[t][i] && o.Text != al.Text {
-				// the error is a different one on a shared instance even sequentially: the text is not
-				// a function of the call alone, stop comparing it
-				a.textStable[t][i] = false
+				// The text is independent of iteration order and the same in both alone runs, yet on a
+				// shared instance the call reports a different error even sequentially: the error is
+				// not a function of the call alone.
+				if a.SeqViolation == nil {
+					a.SeqViolation = &Violation{Class: "result_differs", Task: t, Op: i, OpSpec: w.Tasks[t][i].String(),
+						Detail: fmt.Sprintf("even in a purely sequential execution (%s) the call failed with: %s\nrun alone on a fresh instance it fails with: %s", how, truncate(o.Text, 600), truncate(al.Text, 600))}
+				}
+				return
 			}
 			a.seqClasses[t][i][o.Class] = true
 			return
@@ -463,18 +468,32 @@ func computeAdmissible(w *Workload, prep [][]*Prepared, warm []*Prepared, seed u
 	for t := len(w.Tasks) - 1; t >= 0; t-- {
 		for i := len(w.Tasks[t]) - 1; i >= 0; i-- {
 			al := a.alone[t][i]
-			if al.Class == "error" {
-				// second alone pass under the REVERSED iteration order at every map/Range site: an error
-				// text that survives is independent of iteration order
-				simrt.SetPermHook(reversed)
-			}
 			var o Outcome
 			if !callWithTimeout(func() { o = execOp(newEnv(w.Codec), prep[t][i]) }) {
 				a.SeqDeadlock = true
 				return a
 			}
-			simrt.SetPermHook(nil)
-			a.textStable[t][i] = al.Class == "error" && o.Class == "error" && o.Text == al.Text
+			if al.Class == "error" && o.Class == "error" {
+				if o.Text != al.Text {
+					// same call, alone, same iteration order, twice in one process: two different errors
+					if a.SeqViolation == nil {
+						a.SeqViolation = &Violation{Class: "result_differs", Task: t, Op: i, OpSpec: w.Tasks[t][i].String(),
+							Detail: fmt.Sprintf("the call, run alone on a fresh instance, failed with %q the first time and with %q the second time in the same process (only other fresh instances were used in between): process-wide state leaks into the error", truncate(al.Text, 500), truncate(o.Text, 500))}
+					}
+				} else {
+					// third alone run under the REVERSED iteration order at every map/Range site: an
+					// error text that survives is independent of iteration order and is compared exactly
+					simrt.SetPermHook(reversed)
+					var o3 Outcome
+					ok := callWithTimeout(func() { o3 = execOp(newEnv(w.Codec), prep[t][i]) })
+					simrt.SetPermHook(nil)
+					if !ok {
+						a.SeqDeadlock = true
+						return a
+					}
+					a.textStable[t][i] = o3.Class == "error" && o3.Text == al.Text
+				}
+			}
 			if o.Class != al.Class || (o.Class == "ok" && o.Canon != al.Canon) {
 				if a.SeqViolation == nil {
 					a.SeqViolation = &Violation{Class: "result_differs", Task: t, Op: i, OpSpec: w.Tasks[t][i].String(),
